@@ -142,6 +142,19 @@ func smPrepare() {
 			}
 		}
 	}
+	// methods in a letter case other than the one that is allowed or safelisted (method names are case-sensitive; only
+	// browsers normalise a handful of them before sending)
+	for _, o := range []string{"https://a.example", "http://b.example:81", "https://d.example"} {
+		for _, m := range []string{"get", "Get", "head", "post", "Post", "put", "Put", "delete", "Delete", "patch", "options", "m-search"} {
+			for _, acrh := range [][]string{nil, {"x-a"}, {"authorization"}} {
+				hdr := map[string][]string{"Origin": {o}, "Access-Control-Request-Method": {m}}
+				if acrh != nil {
+					hdr["Access-Control-Request-Headers"] = acrh
+				}
+				smSuiteFull = append(smSuiteFull, vlib.Req{Method: "OPTIONS", Hdr: hdr})
+			}
+		}
+	}
 	// header keys with zero values (no field line at all) and with one empty value, on preflights that otherwise pass
 	for _, o := range []string{"https://a.example", "http://b.example:81", "https://d.example"} {
 		for _, m := range []string{"GET", "PUT", "DELETE"} {
@@ -320,6 +333,22 @@ func c09DiagP(name string, r vlib.Req, preset map[string][]string) *vlib.Failure
 		return vlib.Failf("configuration %s: the middleware calls WriteHeader more than once for %s (debug off: %d extra calls, debug on: %d)", name, r, a.ExtraWrites, b.ExtraWrites)
 	}
 	if isPre := r.Method == "OPTIONS" && len(r.Hdr["Origin"]) > 0 && len(r.Hdr["Access-Control-Request-Method"]) > 0; isPre && a.Status/100 != 2 {
+		// a failure at the method step (with debug off the request fails even without its ACRH / ACRPN lines, and
+		// succeeds once it asks for GET instead): debug mode reports how far the preflight got, it does not let the
+		// method through - no Allow-Methods, no Allow-Headers, no Max-Age
+		strip := func(method string) vlib.Req {
+			hdr := map[string][]string{"Origin": r.Hdr["Origin"], "Access-Control-Request-Method": {method}}
+			return vlib.Req{Method: "OPTIONS", Hdr: hdr}
+		}
+		own := vlib.Serve(mOff.Wrap(innerOff), &innerOff.Calls, strip(r.Hdr["Access-Control-Request-Method"][0]), preset)
+		get := vlib.Serve(mOff.Wrap(innerOff), &innerOff.Calls, strip("GET"), preset)
+		if own.Status/100 != 2 && get.Status/100 == 2 && len(get.Hdr["Access-Control-Allow-Origin"]) > 0 {
+			for _, hk := range []string{"Access-Control-Allow-Methods", "Access-Control-Allow-Headers", "Access-Control-Max-Age"} {
+				if v, ok := b.Hdr[hk]; ok {
+					return vlib.Failf("configuration %s: the preflight %s fails at the method step (debug off: %d, and %d without its other request headers; %d when it asks for GET), yet with debug on the answer carries %s=%q", name, r, a.Status, own.Status, get.Status, hk, v)
+				}
+			}
+		}
 		for hk := range a.Hdr {
 			if strings.HasPrefix(hk, "Access-Control-") {
 				return vlib.Failf("configuration %s, debug off: the failing preflight %s carries %s=%q (diagnostics belong to debug mode only)", name, r, hk, a.Hdr[hk])
